@@ -67,8 +67,11 @@ def gen_pattern(rng, with_funcs: bool):
     return pn, root, [("n", root, j) for j in range(nout)], nvars[0]
 
 
-def pattern_from_host(rng, host: onnx.ModelProto):
-    """A tree pattern read off a random node of the host (any nesting level / function body): >= 1 structural instance."""
+def pattern_from_host(rng, host: onnx.ModelProto, allow_f: bool = False, prefer_f: bool = False):
+    """A tree pattern read off a random node of the host (any nesting level / function body): >= 1 structural instance.
+    `allow_f`: the pattern may contain calls of the model-local function `local.f` (only for rules that do not re-emit
+    the call: an overloaded callee cannot be re-emitted through the pattern API); `prefer_f`: start at such a call or at
+    a consumer of one."""
     graphs = []
 
     def collect(g):
@@ -83,8 +86,12 @@ def pattern_from_host(rng, host: onnx.ModelProto):
         fg = onnx.GraphProto()
         fg.node.extend(f.node)
         graphs.append(fg)
-    ok_ops = set(L.UNARY + L.COMM + L.NONCOMM + ["Transpose", "Two", "h"])
+    ok_ops = set(L.UNARY + L.COMM + L.NONCOMM + ["Transpose", "Two", "h"] + (["f"] if allow_f else []))
     cands = [(g, n) for g in graphs for n in g.node if n.op_type in ok_ops]
+    if prefer_f:
+        fouts = {o for g in graphs for n in g.node if n.op_type == "f" and n.domain == "local" for o in n.output}
+        pf = [(g, n) for g, n in cands if (n.op_type == "f" and n.domain == "local") or any(x in fouts for x in n.input)]
+        cands = pf or cands
     if not cands:
         return None
     g, start = rng.choice(cands)
@@ -100,7 +107,8 @@ def pattern_from_host(rng, host: onnx.ModelProto):
         budget[0] -= 1
         ins = []
         for x in n.input:
-            if x in prod and prod[x][0].op_type in ok_ops and budget[0] > 0 and rng.random() < 0.7:
+            if x in prod and prod[x][0].op_type in ok_ops and budget[0] > 0 and (
+                    rng.random() < 0.7 or (prefer_f and prod[x][0].op_type == "f")):
                 pi = build(prod[x][0])
                 ins.append(("n", pi, prod[x][1]))
             else:
@@ -128,8 +136,12 @@ def pattern_from_host(rng, host: onnx.ModelProto):
     return fixed, root, [("n", root, j) for j in range(fixed[root][3])], len(vars_)
 
 
-def gen_rule(rng, idx: int, with_funcs: bool, allow_clash: bool, host=None) -> dict:
-    fam = rng.choice(["reemit", "reemit", "swap", "invol", "mulone", "asfn", "keep", "two", "multi", "passthru"])
+VERSION_CHOICES = [18, 18, 18, 17, 17, 19]   # the hosts import "" at 18: equal, lower (2x), higher
+
+
+def gen_rule(rng, idx: int, with_funcs: bool, allow_clash: bool, host=None, force_fam: str | None = None,
+             prefer_f: bool = False) -> dict:
+    fam = force_fam or rng.choice(["reemit", "reemit", "swap", "invol", "mulone", "asfn", "keep", "two", "multi", "passthru"])
     name = f"r{idx}"
     spec = dict(name=name, remove=True, asfn=False, guard=True, inits=[], unique=False, family=fam)
     if fam == "invol":
@@ -166,7 +178,8 @@ def gen_rule(rng, idx: int, with_funcs: bool, allow_clash: bool, host=None) -> d
         spec.update(pnodes=pn, root=0, pouts=[("n", 0, j) for j in range(nout)],
                     tnodes=[("Two", "local", None, [("v", 0)], 2, [])], touts=[("n", 0, j) for j in range(nout)])
         return spec
-    got = pattern_from_host(rng, host) if (host is not None and rng.random() < 0.65) else None
+    got = (pattern_from_host(rng, host, allow_f=(fam == "asfn"), prefer_f=prefer_f)
+           if (host is not None and (prefer_f or rng.random() < 0.65)) else None)
     pn, root, pouts, nv = got if got else gen_pattern(rng, with_funcs)
     spec.update(pnodes=pn, root=root, pouts=pouts)
     # a call of the model-local function `Two` always declares both outputs
@@ -199,7 +212,7 @@ def gen_rule(rng, idx: int, with_funcs: bool, allow_clash: bool, host=None) -> d
     if fam != "asfn" and rng.random() < 0.15:
         # explicit versions; since 630be50 `used_opsets` is iterated sorted, so mixing ("", None) with ("", 18) is
         # deterministic: in a fresh body dict the unversioned entry records 1 first and the versioned one then clashes
-        ver = rng.choice([18, 18, 17] if allow_clash else [18])
+        ver = rng.choice(VERSION_CHOICES if allow_clash else [18])
         if rng.random() < 0.3 and len(tn) > 1:
             k = rng.randrange(len(tn))
             tn = [(op, dom, ver if (dom == "" and i == k) else v0, ins, nout, attrs) for i, (op, dom, v0, ins, nout, attrs) in enumerate(tn)]
@@ -240,6 +253,17 @@ def pred_passthru(case) -> bool:
     return any(any(r is not None and r[0] == "v" for r in s["touts"]) for s in case["rules"])
 
 
+def _identity_of_outer_in_body(g: dict, inside: bool) -> bool:
+    """the (model's) result holds, inside a nested body, an Identity node reading a value the body does not define"""
+    local = set(g["inputs"]) | {k for k, _ in g["inits"]} | {o for n in g["nodes"] for o in n["outputs"]}
+    for n in g["nodes"]:
+        if inside and n["op"] == "Identity" and any(x is not None and x not in local for x in n["inputs"]):
+            return True
+        if any(_identity_of_outer_in_body(sg, True) for _, sg in n["subs"]):
+            return True
+    return False
+
+
 def pred_asfn_in_body(case) -> bool:
     return any(s["asfn"] for s in case["rules"]) and case.get("with_cond", False)
 
@@ -258,8 +282,18 @@ def make_case(rng, size_hi: int, allow_clash: bool) -> dict:
     extra = []
     if rng.random() < 0.18:  # pre-existing suffixed names, with gaps: the fresh-name search must probe every time
         extra = ["one"] + [nm for nm in ("one_1", "one_2", "one_3", "one_4") if rng.random() < 0.5]
-    host, hist = L.gen_host(rng, rng.randint(2, size_hi), with_funcs, with_cond, extra)
+    # class "model that has been through an as_function pass before": the model-local function `local.f` carries an
+    # overload and the host calls it; an as_function rule whose match contains such a call must copy the call as it is
+    second_pass = rng.random() < 0.07
+    if second_pass:
+        with_funcs = True
+    f_overload = rng.choice(["1", "2"]) if (second_pass or rng.random() < 0.3) else ""
+    allow_clash = allow_clash or rng.random() < 0.2
+    host, hist = L.gen_host(rng, rng.randint(2, size_hi), with_funcs, with_cond, extra, f_overload=f_overload,
+                            force_f_call=second_pass)
     rules = [gen_rule(rng, i + 1, with_funcs, allow_clash, host) for i in range(nrules)]
+    if second_pass:
+        rules[0] = gen_rule(rng, 1, with_funcs, False, host, force_fam="asfn", prefer_f=True)
     commute = rng.random() < 0.3
     if commute:
         # option product as_function x commute x operand order: present the host's instances in swapped order
@@ -268,11 +302,9 @@ def make_case(rng, size_hi: int, allow_clash: bool) -> dict:
             if r0[0] in L.COMM and r0[1] == "" and len(r0[2]) == 2 and rng.random() < 0.6:
                 sp["pnodes"][sp["root"]] = (r0[0], r0[1], [r0[2][1], r0[2][0]], r0[3], r0[4])
                 sp["swapped_root"] = True
-    for i, sp in enumerate(rules):
-        if sp["family"] == "passthru" and with_cond:  # in a body the returned value may be an outer one: not rendered by the model
-            rules[i] = dict(sp, family="invol", tnodes=[("Identity", "", None, [("v", 0)], 1, [])], touts=[("n", 0, 0)])
+    # since aef7e04 a passthru rule may fire in a body with an outer value bound (routed through Identity): generated as it is
     return {"rules": rules, "host": host.SerializeToString().hex(), "with_cond": with_cond, "with_funcs": with_funcs, "hist": hist,
-            "commute": commute}
+            "commute": commute, "f_overload": f_overload if with_funcs else ""}
 
 
 def host_of(case) -> onnx.ModelProto:
@@ -318,6 +350,15 @@ def judge_real(case, host, out: onnx.ModelProto, count, rng, do_ort: bool, stats
         a, b = L.node_multiset(host, rule_ops), L.node_multiset(out, rule_ops)
         if a != b:
             bad.append(f"multiset of untouched nodes changed: {a} -> {b}")
+    # "the opset imports the replacement needs are added": a replacement built with an explicit `_version` of the default
+    # domain that was applied must find exactly that version imported (the emitted nodes are otherwise read under another
+    # operator set than the one the rule was written against).  Judged when it is known which rule fired (one rule).
+    if count and len(case["rules"]) == 1:
+        want = {t[2] for t in case["rules"][0]["tnodes"] if t[2] is not None and t[1] == ""}
+        have = {o.version for o in out.opset_import if o.domain == ""}
+        if want and not have <= want:
+            bad.append(f"the replacement was built for opset {sorted(want)} of the default domain and was applied, "
+                       f"but the model imports {sorted(have)}")
     if do_ort and not bad and not any(f.overload for f in out.functions):  # onnxruntime 1.30 does not resolve overloads
         feeds = L.feeds_for(host, rng)
         try:
@@ -337,15 +378,45 @@ def judge_real(case, host, out: onnx.ModelProto, count, rng, do_ort: bool, stats
     return bad
 
 
-def check_case(case, answers: list[str], rng, do_ort: bool, stats: Counter):
-    """Returns (tie_problems, property_problems)."""
+def check_case(case, answers: list[str], rng, do_ort: bool, stats: Counter, keep: dict | None = None):
+    """Returns (tie_problems, property_problems).  `keep`: receives the real result of the apply mode.
+    A case with `first_host` is a *second pass*: its host is what the same rules made of `first_host`; in apply mode the
+    real side re-uses the RewriteRuleSet object of that first pass (history: second call on a re-used object)."""
     host = host_of(case)
     tie, prop = [], []
     for mode, ans in zip(("apply", "rewrite"), answers):
         specs = copy.deepcopy(case["rules"])
-        kind, cnt, out = L.run_real(host, specs, mode, commute=bool(case.get("commute")))
+        if mode == "apply" and case.get("first_host"):
+            first = onnx.ModelProto()
+            first.ParseFromString(bytes.fromhex(case["first_host"]))
+            kind, cnt, out = L.run_real_reused(first, specs, commute=bool(case.get("commute")))
+            if kind == "ERR" and cnt.startswith("firstPass:"):
+                stats["second_pass_first_failed"] += 1   # e.g. the time limit under load: not judged
+                continue
+            stats["reused_ruleset_runs"] += 1
+        else:
+            kind, cnt, out = L.run_real(host, specs, mode, commute=bool(case.get("commute")))
+        if keep is not None and mode == "apply" and kind == "OK":
+            keep["out"], keep["count"] = out, cnt
         mk, mc, ms = parse_model_answer(ans)
         stats[f"{mode}_cases"] += 1
+        if keep is not None and mode == "apply" and mk == "OK":
+            keep["model_count"] = mc
+        if mode == "apply":
+            # coverage counters of input classes: computed from the case and the *model's* prediction (independent of /repo)
+            vers = {t[2] for s in case["rules"] for t in s["tnodes"] if t[2] is not None and t[1] == ""}
+            if mk == "ERR" and mc.split(":")[0] == "opsetClash":
+                stats["ver_lower_clash"] += any(v < 18 for v in vers)
+                stats["ver_higher_clash"] += any(v > 18 for v in vers)
+            if mk == "OK" and mc:
+                stats["ver_equal_fired"] += bool(vers) and all(v == 18 for v in vers)
+                if pred_passthru(case):
+                    stats["passthru_outer_in_body"] += _identity_of_outer_in_body(ms["graph"], False)
+                host_fids = {(f.domain, f.name, f.overload) for f in host.functions}
+                new_funcs = [f for f in ms["funcs"] if (f["domain"], f["name"], f["overload"]) not in host_fids]
+                # an extracted (new) function whose body holds a call with an overload: the matched call is copied as it is
+                stats["asfn_copied_overloaded_call"] += any(n["overload"] for f in new_funcs for n in f["graph"]["nodes"])
+                stats["commute_asfn_fired"] += bool(case.get("commute")) and bool(new_funcs)
         if kind == "ERR":
             stats["real_err_" + cnt.split(":")[0]] += 1
             if cnt == "fuel":
@@ -359,6 +430,8 @@ def check_case(case, answers: list[str], rng, do_ort: bool, stats: Counter):
             continue
         if mk == "ERR":
             tie.append(f"{mode}: impl returned a model (count={cnt}); model ERR {mc}")
+            # the model expected an error: the property's oracles still judge what the code returned instead
+            prop += [f"{mode}: {b}" for b in judge_real(case, host, out, cnt, rng, False, stats)]
             continue
         if mode == "apply":
             stats["applications"] += cnt
@@ -471,6 +544,59 @@ def corpus() -> list[dict]:
                     touts=[("n", 0, 0)] if asfn_ else [("n", 1, 0)])],
                     "host": host([N("Neg", ["x"], ["n"]), N("Add", ["y", "n"], ["s"]), N("Neg", ["s"], ["m"]), N("Add", ["m", "x"], ["z"])],
                                  ["x", "y"], ["z"])})
+    # directed (no finding): explicit replacement versions against the imported one (hosts import "" at 18):
+    # lower and higher must be refused ("Multiple versions of opset"), equal applies — in the main graph and in a function
+    fb18 = helper.make_function("local", "f", ["a"], ["b"], [N("Relu", ["a"], ["t"]), N("Neg", ["t"], ["b"])], [helper.make_opsetid("", 18)])
+    for ver in (17, 19, 18, 1):
+        vr = dict(base, name="r1", family="reemit", pnodes=[("Relu", "", [("v", 0)], 1, [])], root=0, pouts=[("n", 0, 0)],
+                  tnodes=[("Relu", "", ver, [("v", 0)], 1, [])], touts=[("n", 0, 0)])
+        out.append({"with_cond": False, "rules": [vr], "host": host([N("Relu", ["x"], ["a"]), N("Neg", ["a"], ["z"])], ["x"], ["z"])})
+        out.append({"with_cond": False, "rules": [copy.deepcopy(vr)],
+                    "host": host([N("f", ["x"], ["r"], domain="local"), N("Abs", ["r"], ["z"])], ["x"], ["z"], funcs=[fb18], local=True)})
+    # directed (no finding): the model has been through an as_function pass before — `local.f` carries overload "1" and
+    # the match of a new as_function rule contains a call of it: the call is copied into the extracted function as it is
+    f1 = helper.make_function("local", "f", ["a"], ["b"], [N("Abs", ["a"], ["b"])], [helper.make_opsetid("", 18)])
+    f1.overload = "1"
+    fc = N("f", ["x"], ["t"], domain="local")
+    fc.overload = "1"
+    for pn_, root_ in (([("f", "local", [("v", 0)], 1, []), ("Relu", "", [("n", 0, 0)], 1, [])], 1), ([("f", "local", [("v", 0)], 1, [])], 0)):
+        for callee in ("NR", "f"):
+            out.append({"with_cond": False, "f_overload": "1", "rules": [dict(base, name="r1", family="asfn", asfn=True, pnodes=pn_, root=root_,
+                        pouts=[("n", root_, 0)], tnodes=[(callee, "local", None, [("v", 0)], 1, [])], touts=[("n", 0, 0)])],
+                        "host": host([fc, N("Relu", ["t"], ["u"]), N("Neg", ["u"], ["z"])], ["x"], ["z"], funcs=[f1], local=True)})
+    # two output nodes, the second one matched by an *overloaded* call (candidates are keyed without the overload since 750cd8e)
+    out.append({"with_cond": False, "f_overload": "1", "rules": [dict(base, name="r1", family="asfn", asfn=True,
+                pnodes=[("Relu", "", [("v", 0)], 1, []), ("f", "local", [("v", 0)], 1, [])], root=0, pouts=[("n", 0, 0), ("n", 1, 0)],
+                tnodes=[("NR", "local", None, [("v", 0)], 2, [])], touts=[("n", 0, 0), ("n", 0, 1)])],
+                "host": host([N("Relu", ["x"], ["r"]), fc, N("Add", ["r", "t"], ["z"])], ["x"], ["z"], funcs=[f1], local=True)})
+    # the same within one pass: the second as_function rule's match contains the call the first one has just created
+    out.append({"with_cond": False, "rules": [
+        dict(base, name="r1", family="asfn", asfn=True, pnodes=[("Neg", "", [("v", 0)], 1, []), ("Relu", "", [("n", 0, 0)], 1, [])], root=1,
+             pouts=[("n", 1, 0)], tnodes=[("NR", "local", None, [("v", 0)], 1, [])], touts=[("n", 0, 0)]),
+        dict(base, name="r2", family="asfn", asfn=True, pnodes=[("NR", "local", [("v", 0)], 1, []), ("Abs", "", [("n", 0, 0)], 1, [])], root=1,
+             pouts=[("n", 1, 0)], tnodes=[("NR2", "local", None, [("v", 0)], 1, [])], touts=[("n", 0, 0)])],
+        "host": host([N("Neg", ["x"], ["n"]), N("Relu", ["n"], ["r"]), N("Abs", ["r"], ["a"]), N("Neg", ["a"], ["z"])], ["x"], ["z"], local=True)})
+    # regression of C07-D11 (fixed aef7e04) through the tie: `Neg(Neg(v)) -> v` inside If / nested If / Loop bodies with `v` an outer
+    # value, the replaced value being the body's output or an interior value of the body
+    pt = dict(base, name="r1", guard=False, family="passthru", pnodes=[("Neg", "", [("v", 0)], 1, []), ("Neg", "", [("n", 0, 0)], 1, [])],
+              root=1, pouts=[("n", 1, 0)], tnodes=[], touts=[("v", 0)])
+    bool_c = helper.make_tensor_value_info("c", onnx.TensorProto.BOOL, [])
+    for inner_tail in (False, True):
+        tbn = [N("Neg", ["a"], ["n"]), N("Neg", ["n"], ["t"])] + ([N("Relu", ["t"], ["t2"])] if inner_tail else [])
+        tb11 = helper.make_graph(tbn, "tb", [], [L.VT("t2" if inner_tail else "t")])
+        eb11 = helper.make_graph([N("Relu", ["a"], ["e"])], "eb", [], [L.VT("e")])
+        g11 = helper.make_graph([N("Abs", ["x"], ["a"]), N("If", ["c"], ["z"], then_branch=tb11, else_branch=eb11)], "main",
+                                [L.VT("x"), bool_c], [L.VT("z")])
+        out.append({"regress": "C07-D11", "with_cond": True, "rules": [copy.deepcopy(pt)],
+                    "host": helper.make_model(g11, opset_imports=[helper.make_opsetid("", 18)], ir_version=10).SerializeToString().hex()})
+    # the bound value is a graph *input* of the main graph, seen from a nested If (two levels)
+    in2 = helper.make_graph([N("Neg", ["x"], ["n"]), N("Neg", ["n"], ["t"])], "in2", [], [L.VT("t")])
+    el2 = helper.make_graph([N("Abs", ["x"], ["e2"])], "el2", [], [L.VT("e2")])
+    tb2 = helper.make_graph([N("If", ["c"], ["u"], then_branch=in2, else_branch=el2)], "tb2", [], [L.VT("u")])
+    eb2 = helper.make_graph([N("Relu", ["x"], ["e"])], "eb2", [], [L.VT("e")])
+    g12 = helper.make_graph([N("If", ["c"], ["z"], then_branch=tb2, else_branch=eb2)], "main", [L.VT("x"), bool_c], [L.VT("z")])
+    out.append({"regress": "C07-D11", "with_cond": True, "rules": [copy.deepcopy(pt)],
+                "host": helper.make_model(g12, opset_imports=[helper.make_opsetid("", 18)], ir_version=10).SerializeToString().hex()})
     # regression cases kept from the generated stream (C07-D7, C07-D8; fixed c9666a4): must pass
     cf = core.VERIF / "harness" / "corpus_c07.jsonl"
     if cf.exists():
@@ -498,6 +624,23 @@ def check_multi_output_witness() -> str | None:
         lambda ctx, x: "t" not in ctx.root.metadata_props.get(L.TAG, ""),
         name="t",
     )
+    mi = ir.serde.deserialize_model(m)
+    cnt = RewriteRuleSet([rule]).apply_to_model(mi)
+    out = ir.serde.serialize_model(mi)
+    return (L.checker_ok(out) or L.scope_walk(out)) if cnt else None
+
+
+def check_passthru_body_witness() -> str | None:
+    """Regression witness of C07-D11 (fixed aef7e04): a replacement returning an outer-scope value replaces an output of an If body."""
+    from onnxscript import ir
+    from onnxscript.rewriter import RewriteRuleSet, pattern
+
+    m = onnx.parser.parse_model(
+        '<ir_version: 10, opset_import: ["" : 18]> agraph (float[2] x, bool c) => (float[2] z) '
+        "{ a = Abs(x) z = If (c) <then_branch = tb () => (float[2] t) { n = Neg(a) t = Neg(n) }, "
+        "else_branch = eb () => (float[2] e) { e = Relu(a) }> }"
+    )
+    rule = pattern.RewriteRule(lambda op, x: op.Neg(op.Neg(x)), lambda op, x: x)
     mi = ir.serde.deserialize_model(m)
     cnt = RewriteRuleSet([rule]).apply_to_model(mi)
     out = ir.serde.serialize_model(mi)
@@ -539,8 +682,9 @@ def main(run: core.Run) -> None:
         "`caps` from the bodies, the scope walker checks the real results",
         "A-ir: onnx_ir's replace_nodes_and_values, the linked-list iterator, RemoveUnused{Nodes,Functions,Opsets}Pass and "
         "NameFixPass are contract parameters (rendered executably in OV.Model.C07Apply and executed for real by the tie)",
-        "the matcher is C06's: theorems take a Match as given; the driver's `matchAt` covers the generators' pattern class "
-        "(one output node, variables, repeated variables, constant attributes, multi-output node)",
+        "the matcher of the theorems and of the driver is the model's `matchAt` (tied to the real matcher by every case): it covers the "
+        "generators' pattern class (one or two output nodes, variables, repeated variables, constant attributes, multi-output node); "
+        "no translation to C06's matcher model",
     ]
     audit = run.prove(PROP_MODULES)
     drv = core.Driver("C07")
@@ -572,14 +716,43 @@ def main(run: core.Run) -> None:
     tie_broken, prop_failures = [], []
     known_counts: Counter = Counter()
 
-    def process(cases, do_ort_every=3):
+    def second_pass_case(c, out, cnt):
+        """The model a pass produced goes through a second pass: with the same rules (the real side re-uses the rule-set
+        object; tags, `val_k` names, overloads and functions of the first pass are in the host now) or with new rules
+        read off the new host."""
+        r = run.rng
+        same = r.random() < 0.5
+        host2 = out.SerializeToString().hex()
+        if same:
+            rules = copy.deepcopy(public_list(c["rules"]))
+        else:
+            wf = bool(out.functions)
+            rules = [gen_rule(r, i + 1, c.get("with_funcs", False), False, out,
+                              force_fam=("asfn" if (wf and i == 0 and r.random() < 0.5) else None),
+                              prefer_f=False) for i in range(r.choice([1, 2]))]
+        c2 = {"rules": rules, "host": host2, "with_cond": c.get("with_cond", False), "with_funcs": c.get("with_funcs", False),
+              "commute": bool(c.get("commute")) and same, "second_pass": "same" if same else "new", "hist": {}}
+        if same:
+            c2["first_host"] = c["host"]
+        if any(f.overload for f in out.functions):
+            stats["second_pass_host_has_overloads"] += 1
+        return c2
+
+    def process(cases, do_ort_every=3, second=True):
         lines = []
         for c in cases:
             lines += model_lines(c)
         answers = drv.ask(lines, timeout=900)
+        again = []
         for i, c in enumerate(cases):
             host = host_of(c)
-            tie, prop = check_case(c, answers[2 * i: 2 * i + 2], run.rng, i % do_ort_every == 0, stats)
+            keep: dict = {}
+            tie, prop = check_case(c, answers[2 * i: 2 * i + 2], run.rng, i % do_ort_every == 0, stats, keep)
+            if c.get("second_pass"):
+                stats["second_pass_" + c["second_pass"]] += 1
+                stats["second_pass_fired"] += bool(keep.get("model_count"))
+            elif second and keep.get("count") and not tie and not prop and "id" not in c and run.rng.random() < 0.3:
+                again.append(second_pass_case(c, keep["out"], keep["count"]))
             fam = "+".join(s["family"] + ("" if s["remove"] else "/keep") for s in c["rules"])
             if c.get("commute"):
                 stats["commute_cases"] += 1
@@ -604,6 +777,8 @@ def main(run: core.Run) -> None:
             else:
                 for t in tie:
                     tie_broken.append((c, t))
+        if again:
+            process(again, do_ort_every=2, second=False)
 
     # 1. corpus: witnesses of the findings
     process(corpus(), do_ort_every=1)
@@ -611,6 +786,10 @@ def main(run: core.Run) -> None:
     if r:
         # C07-D3 was fixed by a8da06e: a failure of the regression witness is a violation
         prop_failures.append(({"witness": "multi-output-node (regression of C07-D3)"}, r))
+    r = check_passthru_body_witness()
+    if r:
+        # C07-D11 was fixed by aef7e04: a failure of the regression witness is a violation
+        prop_failures.append(({"witness": "passthru of an outer value inside an If body (regression of C07-D11)"}, r))
     r = check_asfn_body_witness()
     if r:
         # C07-D5 was fixed by 35ad500: a failure of the regression witness is a violation
@@ -660,11 +839,13 @@ def main(run: core.Run) -> None:
         exhaustive=False,
     )
     stats["commute_cases"] += 0
-    required = ["commute_cases", "host_val_named", "fam_reemit", "fam_swap", "fam_invol", "fam_mulone", "fam_asfn", "fam_two", "fam_multi", "fam_passthru",
+    required = ["passthru_outer_in_body", "second_pass_same", "second_pass_new", "second_pass_fired", "second_pass_host_has_overloads", "reused_ruleset_runs",
+                "ver_lower_clash", "ver_higher_clash", "ver_equal_fired", "asfn_copied_overloaded_call", "host_f_overloaded_call",
+                "commute_asfn_fired", "commute_cases", "host_val_named", "fam_reemit", "fam_swap", "fam_invol", "fam_mulone", "fam_asfn", "fam_two", "fam_multi", "fam_passthru",
                 "host_If", "host_Loop", "host_fn_Neg", "host_Two", "count_1", "count_2", "count_5", "ort_pairs"]
     missing = [k for k in required if not stats[k]]
     run.coverage["required_counters"] = {k: stats[k] for k in required}
-    if missing:
+    if missing and not (prop_failures or tie_broken):   # a behavioural difference already reported is never turned into exit 2
         raise core.Infra("generator did not cover: " + ", ".join(missing))
     if stats["apply_cases"] and stats["count_0"] > 0.6 * stats["apply_cases"]:
         raise core.Infra("generator degenerated: >60% of cases without any application")
